@@ -438,6 +438,9 @@ func encodeStress() (total, bad int) {
 			defer wg.Done()
 			for k := 0; k < per; k++ {
 				pl := bytes.Repeat([]byte{byte(g)}, 3+(k%40))
+				if k%25 == 7 { // a packet that is refused as too large, in between
+					(&mqtt.Publish{Header: mqtt.Header{QOS: 1}, MessageID: uint16(k), Topic: []byte("big"), Payload: make([]byte, 70000)}).EncodeTo(w)
+				}
 				(&mqtt.Publish{Header: mqtt.Header{QOS: 1}, MessageID: uint16(k), Topic: []byte(fmt.Sprintf("t/%d/", g)), Payload: pl}).EncodeTo(w)
 			}
 		}(g)
@@ -586,5 +589,5 @@ func main() {
 		sh.Add(vlib.App("CEncStress", vlib.N(uint64(total)), vlib.N(uint64(bad))),
 			map[string]interface{}{"op": "concurrent PUBLISH encoders", "packets": total, "damaged_lost_or_duplicated": bad}, "enc/concurrent", true)
 	}
-	sh.Finish("packet values: 14 types x flags x QoS (incl. will QoS) x lengths at 0/127/128/16383/16384/65530..65537; byte strings: truncations at every offset, 1-3 byte mutations, inflated length fields, random; 24 goroutines x 200 PUBLISH packets encoded concurrently into a writer that yields before it copies; non-trivial = encodes to more than 2 bytes / input longer than 1 byte; distinct by Coq term")
+	sh.Finish("packet values: 14 types x flags x QoS (incl. will QoS) x lengths at 0/127/128/16383/16384/65530..65537; byte strings: truncations at every offset, 1-3 byte mutations, inflated length fields, random; 24 goroutines x 200 PUBLISH packets (and refused oversize ones in between) encoded concurrently into a writer that yields before it copies; non-trivial = encodes to more than 2 bytes / input longer than 1 byte; distinct by Coq term")
 }
